@@ -262,27 +262,27 @@ def start (s : PState) : PState × Out :=
 def await (s : PState) (late : Completion) : PState :=
   if s.running then complete s late else s
 
+/-- `err != nil` after the receive: `p.flushingMemDB = nil; return err` -/
+def failWith (s : PState) : PState × Out :=
+  ({ s with flushing := none, errCh := none, failed := true }, .errFlush)
+
+/-- `Flush` after the receive from `errCh` -/
+def flushAfterWait (s : PState) : PState × Out :=
+  if s.errCh = some .err then failWith s else start s
+
 def doFlush (s : PState) (force : Bool) (mem : Nat) (late : Completion) : PState × Out :=
   let s1 := { s with cache := none }
   if !s1.stages.isEmpty then (s1, .errStaging)
   else if !force && !needFlush s1.cfg mem s1.mbuf.length s1.running then (s1, .notFlushed)
-  else
-    match s1.flushing with
-    | some _ =>
-      let s2 := await s1 late
-      match s2.errCh with
-      | some .err => ({ s2 with flushing := none, errCh := none, failed := true }, .errFlush)
-      | _ => start s2
-    | none => start s1
+  else if s1.flushing.isSome then flushAfterWait (await s1 late)
+  else start s1
+
+/-- `FlushWait` after the receive from `errCh` -/
+def waitAfter (s : PState) : PState × Out :=
+  if s.errCh = some .err then failWith s else ({ s with flushing := none, errCh := none }, .ok)
 
 def doFlushWait (s : PState) (late : Completion) : PState × Out :=
-  match s.flushing with
-  | some _ =>
-    let s2 := await s late
-    match s2.errCh with
-    | some .err => ({ s2 with flushing := none, errCh := none, failed := true }, .errFlush)
-    | _ => ({ s2 with flushing := none, errCh := none }, .ok)
-  | none => (s, .ok)
+  if s.flushing.isSome then waitAfter (await s late) else (s, .ok)
 
 /-! ## the machine -/
 
@@ -342,6 +342,16 @@ def stepBoth (σ : PState × Spec) (op : Op) : (PState × Spec) × Out :=
 def runBoth (σ : PState × Spec) : List Op → PState × Spec
   | [] => σ
   | op :: ops => runBoth (stepBoth σ op).1 ops
+
+/-- hypothesis of the proved part of `get_latest_any_tier`: `BatchGet` is not called while a staging handle is open
+    (the cache it fills is dropped by `Flush` only, not by `Cleanup`) -/
+def okOp (s : PState) : Op → Bool
+  | .batchGet _ => s.stages.isEmpty
+  | _ => true
+
+def RunOk (s : PState) : List Op → Prop
+  | [] => True
+  | op :: ops => okOp s op = true ∧ RunOk (step s op).1 ops
 
 /-- `Commit` of a pipelined transaction as far as the buffer is concerned (2pc.go:execute): `Flush(true)`, `FlushWait()` -/
 def commitOuts (s : PState) (mem : Nat) (late1 late2 : Completion) : Out × Out :=
